@@ -152,6 +152,14 @@ def checkSqlw : P String := do
     if trace.any (fun t => t.kind == "B" || t.kind == "C" || t.kind == "RB") then
       c12 := firstFail c12 "fail:tx-variant-ended-callers-transaction"
     if injected && status == "ok" then c12 := firstFail c12 "fail:fault-swallowed"
+  -- a context cancelled before (or while) call k, with further calls still to make, is one of the failures C12 quantifies
+  -- over: every later statement runs under the cancelled context and Commit refuses a transaction whose context is done,
+  -- so the export must report an error (only a cancellation that arrives during the LAST call may go unnoticed)
+  if tail == some "CANCEL" && status == "ok" then
+    let nfree := if own then (runTx f table o ex none).1.length else (runBody f table o ex none 0).1.length
+    match fa with
+    | some k => if k + 1 < nfree then c12 := firstFail c12 "fail:cancellation-ignored"
+    | none => pure ()
   -- ---- C11 (fault-free runs) ----
   if fa.isNone then
     match r? with
